@@ -113,6 +113,9 @@ func (ex *Exec) eval(e ast.Expr, st *State) Value {
 		return ex.evalSliceExpr(e, st)
 	case *ast.StarExpr:
 		p := ex.eval(e.X, st)
+		if hv, isRef := p.(*HeapRefV); isRef {
+			return ex.heapLoadAll(st, hv, e.Pos())
+		}
 		pv, ok := p.(*PtrV)
 		if !ok {
 			unsupported("dereference of %T at %s", p, ex.pos(e.Pos()))
@@ -222,7 +225,8 @@ func (ex *Exec) fieldPath(base Value, idx []int, st *State, p token.Pos) Value {
 			v = ex.getPath(ex.load(st, pv.Loc), pv.Path, st, p)
 		}
 		if hv, ok := v.(*HeapRefV); ok {
-			v = ex.heapLoadAll(st, hv, p)
+			v = ex.heapLoadField(st, hv, i, p)
+			continue
 		}
 		sv, ok := v.(*StructV)
 		if !ok {
